@@ -1,1 +1,94 @@
-// replay hooks for src/iter.rs (included as a child module `verif_replay` of that file)
+// Replay / bounded-check driver for src/iter.rs (child module `verif_replay` of that file).
+// Runs the REAL CompactionIterator::process_accumulated_versions on enumerated small inputs and
+// compares the output with the executable form of the contract's keep_rule.
+// Bound (stated): <= 4 versions per key, kinds {Set, Delete, SoftDelete, Replace}, sequence numbers
+// from {10,20,30,40}, timestamps {fresh, expired}, snapshot lists = all subsets of {5,15,25,35,45},
+// bottom/non-bottom, versioning on/off, retention {0, 100}.
+use super::*;
+use crate::clock::MockLogicalClock;
+use crate::comparator::{BytewiseComparator, InternalKeyComparator};
+use crate::InternalKeyKind;
+
+fn keep_rule(v: &[(u64, InternalKeyKind, u64)], s: &[u64], bottom: bool, versioning: bool, retention: u64, now: u64, j: usize) -> bool {
+	let hard = |k: InternalKeyKind| matches!(k, InternalKeyKind::Delete | InternalKeyKind::RangeDelete);
+	let whole_key_drop = bottom && hard(v[0].1) && (s.is_empty() || s[0] >= v[0].0);
+	if whole_key_drop {
+		return false;
+	}
+	let needed = j == 0 || s.iter().any(|&x| v[j].0 <= x && x < v[j - 1].0);
+	let under_replace = v[..j].iter().any(|e| matches!(e.1, InternalKeyKind::Replace));
+	let expired = retention > 0 && now.saturating_sub(v[j].2) > retention;
+	needed || (versioning && !under_replace && !expired)
+}
+
+fn run_real(v: &[(u64, InternalKeyKind, u64)], s: &[u64], bottom: bool, versioning: bool, retention: u64, now: u64) -> Result<Vec<u64>> {
+	let cmp = Arc::new(InternalKeyComparator::new(Arc::new(BytewiseComparator::default())));
+	let clock = Arc::new(MockLogicalClock::with_timestamp(now));
+	let mut it = CompactionIterator::new(Vec::new(), cmp, bottom, versioning, retention, clock, s.to_vec());
+	// feed the versions in a scrambled order: the function sorts them itself
+	let mut order: Vec<usize> = (0..v.len()).collect();
+	order.reverse();
+	for i in order {
+		let (seq, kind, ts) = v[i];
+		it.accumulated_versions.push((InternalKey::new(b"k".to_vec(), seq, kind, ts), vec![seq as u8]));
+	}
+	it.process_accumulated_versions()?;
+	Ok(it.output_versions.iter().map(|(k, _)| k.seq_num()).collect())
+}
+
+#[test]
+fn retention_enum() {
+	let kinds = [InternalKeyKind::Set, InternalKeyKind::Delete, InternalKeyKind::SoftDelete, InternalKeyKind::Replace];
+	let seqs = [40u64, 30, 20, 10];
+	let snaps_all = [5u64, 15, 25, 35, 45];
+	let now = 1000u64;
+	let mut cases = 0u64;
+	let mut nontrivial = std::collections::HashSet::new();
+	let mut failures: Vec<String> = Vec::new();
+	for n in 1..=4usize {
+		let combos = 8usize.pow(n as u32); // per version: kind (4) x timestamp (2)
+		for c in 0..combos {
+			let mut v = Vec::new();
+			let mut x = c;
+			for i in 0..n {
+				let kind = kinds[x % 4];
+				x /= 4;
+				let ts = if x % 2 == 0 { now - 10 } else { now - 500 };
+				x /= 2;
+				v.push((seqs[4 - n + i], kind, ts));
+			}
+			for mask in 0..32u32 {
+				let s: Vec<u64> = snaps_all.iter().enumerate().filter(|(i, _)| mask & (1 << i) != 0).map(|(_, &x)| x).collect();
+				for &bottom in &[false, true] {
+					for &versioning in &[false, true] {
+						for &retention in &[0u64, 100] {
+							if !versioning && retention != 0 {
+								continue;
+							}
+							cases += 1;
+							let want: Vec<u64> = (0..n).filter(|&j| keep_rule(&v, &s, bottom, versioning, retention, now, j)).map(|j| v[j].0).collect();
+							let got = run_real(&v, &s, bottom, versioning, retention, now);
+							let ok = matches!(&got, Ok(g) if *g == want);
+							if want.len() != n && !want.is_empty() {
+								nontrivial.insert((v.iter().map(|e| (e.0, e.1 as u8, e.2)).collect::<Vec<_>>(), s.clone(), bottom, versioning, retention));
+							}
+							if !ok && failures.len() < 5 {
+								failures.push(format!(
+									"{{\"versions(seq,kind,ts)\":\"{:?}\",\"snapshots\":{:?},\"bottom\":{},\"versioning\":{},\"retention\":{},\"now\":{},\"expected_kept_seqs\":{:?},\"real_output_seqs\":\"{:?}\"}}",
+									v, s, bottom, versioning, retention, now, want, got.as_ref().map_err(|e| e.to_string())
+								));
+							}
+						}
+					}
+				}
+			}
+		}
+	}
+	println!(
+		"REPLAY-RESULT {{\"driver\":\"iter::retention_enum\",\"cases\":{},\"distinct_nontrivial\":{},\"failures\":[{}]}}",
+		cases,
+		nontrivial.len(),
+		failures.join(",")
+	);
+	assert!(failures.is_empty(), "real process_accumulated_versions disagrees with keep_rule");
+}
